@@ -601,7 +601,8 @@ def jobs_for(pid, tier):
         "C08": pairs("alg", ["algebra"], "set", qcaps if q else tcaps) + tset + tbigset,
         "C14": tbigset
                + [dict(tag="eq4-%s" % md, spec="pair", family=["eq"], mode=md,
-                       consts={"CapA": 4, "CapB": 4, "Classes": [0, 1, 2, 3, 4], "Vals": ([0] if md == "set" or q else [0, 1])}) for md in ("set", "map")]
+                       consts=({"CapA": 4, "CapB": 4, "Classes": [0, 1, 2, 3, 4], "Vals": [0]} if md == "set" or q
+                               else {"CapA": 4, "CapB": 4, "Classes": [0, 1, 2, 3], "Vals": [0, 1]})) for md in ("set", "map")]
                + pairs("eqset", ["eq"], "set", qcaps if q else tcaps) + pairs("eqmap", ["eq"], "map", qcaps[:2] if q else tcaps[:9]),
         "C15": shaped(both("clone", ["clone"])) + both("setclone", ["clone"], mode="set"),
         "C20": both("serde", ["serde"]) + both("setserde", ["serde"], mode="set"),
